@@ -439,7 +439,9 @@ impl Client for SimTransport {
     type ResponseBody = SimBody;
 
     fn send(&self, req: Request<RequestBody<'_, SimWriter>>) -> Result<Response<SimBody>, Error> {
+        crate::ctx::seam();
         let ctx = &self.sh.ctx;
+        ctx.mark(0x1000 + self.call as u64);
         let (mut sent, client_ep) = self.capture_head(&req);
         let mut attempts = 0;
         match req.into_body() {
@@ -510,7 +512,9 @@ impl Client for SimTransport {
                     Some(sreq) => {
                         let mut ext = http::Extensions::new();
                         let ep = &self.sh.sync_eps[pos];
+                        crate::ctx::seam();
                         let r = guarded(|| ep.handle(sreq, &mut ext));
+                        crate::ctx::seam();
                         ex.safe_params = Self::snapshot_safe_params(&ext);
                         ex.server = match r {
                             Err(msg) => ServerOut::Panic(msg),
@@ -597,6 +601,7 @@ impl AsyncClient for SimTransport {
     ) -> impl Future<Output = Result<Response<SimBody>, Error>> + Send {
         async move {
             let ctx = &self.sh.ctx;
+            ctx.mark(0x1000 + self.call as u64);
             let (mut sent, client_ep) = self.capture_head(&req);
             let mut attempts = 0;
             match req.into_body() {
@@ -612,7 +617,36 @@ impl AsyncClient for SimTransport {
                     let mut w = Box::pin(w);
                     let mut writer = Box::pin(SimAsyncWriter::new(ctx, wp, pend));
                     attempts = 1;
-                    let mut r = w.as_mut().write_body(writer.as_mut()).await;
+                    // a transport may also give up on an attempt that stalls: the write future is
+                    // dropped at one of its suspension points, then the body is reset and re-sent
+                    let abandon_after = if retry && ctx.chance(1, 2) { Some(1 + ctx.draw(4) as u32) } else { None };
+                    let mut r = match abandon_after {
+                        None => w.as_mut().write_body(writer.as_mut()).await,
+                        Some(k) => {
+                            let mut fut = Box::pin(w.as_mut().write_body(writer.as_mut()));
+                            let mut pendings = 0;
+                            let out = std::future::poll_fn(|cx| match fut.as_mut().poll(cx) {
+                                Poll::Ready(v) => Poll::Ready(Some(v)),
+                                Poll::Pending => {
+                                    pendings += 1;
+                                    if pendings >= k {
+                                        Poll::Ready(None)
+                                    } else {
+                                        Poll::Pending
+                                    }
+                                }
+                            })
+                            .await;
+                            drop(fut);
+                            match out {
+                                Some(v) => v,
+                                None => {
+                                    ctx.count("fault.write_attempt_abandoned_fired");
+                                    Err(Error::internal_safe("simulated: attempt abandoned"))
+                                }
+                            }
+                        }
+                    };
                     if retry || r.is_err() {
                         if w.as_mut().reset().await {
                             ctx.count("fault.retry_fired");
